@@ -4,6 +4,14 @@ ROOT = os.path.dirname(os.path.dirname(os.path.abspath(__file__)))
 BASE = json.load(open('/root/.vp/BASELINE.json'))['cmd'] if os.path.exists('/root/.vp/BASELINE.json') else ''
 
 CHECKS = {
+ "C01": ("bounded exhaustive enumeration of corpus programs x value-lattice input patterns on the real to_onnx, differential against eager JAX",
+         "Every registered plugin/example testcase of the working tree (expanded as the project's generator does) is exported by the real to_onnx in exporter processes and executed in ONNX Runtime for every combination of lattice input patterns (negative, zero, half-integer, tiny/large, index-edge integers, booleans); oracle processes evaluate the same callable in eager JAX (f32 and f64). Integers/bools bit-exact, floats within K*max(|j32-r64|, ulp32). All programs x all pattern combinations within the stated bounds are covered, none sampled.",
+         "Eager JAX is the reference; ORT CPU kernels triaged by the ONNX reference evaluator; inputs outside the lattice and heavy examples (quick tier) not explored; documented preconditions (sorted bins) are respected by the generator.",
+         "DESIGN.md section 2, C01", "model_checking"),
+ "C02": ("explicit-state exploration of all small ONNX graphs per rewrite family through the real optimize_graph, before/after execution",
+         "All graphs with <=N nodes over each rewrite family's operator alphabet (Transpose/Reshape pairs with elementwise, Max/Min/Clip, ReduceMean, Add forests; Mul+Sigmoid at opset 24; Dropout+Not) x every output subset containing the final value x 4 shape-annotation modes are pushed through the real optimizer; before/after models run in ORT on two all-distinct feeds and must agree bit-exactly (count, order, dtype, shape, values). On violation the guilty pass is found by running the pipeline pass by pass.",
+         "ORT CPU as executor of both models; graphs annotated by ONNX strict shape inference the way the converter stamps values; bound N<=3 quick, N<=4 thorough.",
+         "DESIGN.md section 2, C02", "model_checking"),
  # id: (technique, level text, level note, design_ref, category)
  "C17": ("explicit enumeration of all element-type pairs through the real optimizer + exhaustive value-domain round trips",
          "Every ordered pair of ONNX element types (x graph variants) is pushed through the real optimize_graph; for every pair it folds, every bit pattern of the source type (<=16 bit always, all 2^32 in thorough) is round-tripped; Range/constant proofs are enumerated around every integer type boundary and executed before/after. Exhaustive within those bounds, on the implementation itself.",
